@@ -23,7 +23,8 @@ RULE = ("repair_dna(s, CountingAccessor(G), v, k, check, has_indel, heap_size <=
         "0-8 edits anywhere, first nucleotide not an arc of v for every live v, v a dead vertex, an error at each of the last k "
         "positions, a closed walk with one error repeated 40-70 times (40-70 error sites), random strings, alternating error/clean blocks of period k+1, |s| == k; arc-subset (also unpruned) and "
         "generated graphs, k = 1..4 (5 thorough). Verdict: returns (list of ACGT strings, statistics tuple) within the look-up and "
-        "loop budgets, no exception. Non-trivial: the strand is not a walk from v; distinct = hash of the case.")
+        "loop budgets, no exception. Non-trivial: the strand is not a walk from v; distinct = hash of the case."
+        ' Also: check lengths 33/40 and order-8 generated graphs.')
 
 
 def setup(ctx):
